@@ -27,11 +27,210 @@ let unhex (h : string) : n list =
 let hex (l : n list) : string =
   if l = [] then "-" else String.concat "" (List.map (fun b -> Printf.sprintf "%02x" (int_of_n b)) l)
 
+
+(* ---------------------------------------------------------------- grammars *)
+type sx = Atom of string | Lst of sx list
+let parse_sx (str : string) : sx =
+  let n = String.length str in
+  let pos = ref 0 in
+  let rec skip_ws () = while !pos < n && (str.[!pos] = ' ' || str.[!pos] = '\t') do incr pos done in
+  let rec rd () =
+    skip_ws ();
+    if !pos < n && str.[!pos] = '(' then begin
+      incr pos;
+      let items = ref [] in
+      let fin = ref false in
+      while not !fin do
+        skip_ws ();
+        if !pos >= n then fin := true
+        else if str.[!pos] = ')' then (incr pos; fin := true)
+        else items := rd () :: !items
+      done;
+      Lst (List.rev !items)
+    end else begin
+      let st = !pos in
+      while !pos < n && str.[!pos] <> ' ' && str.[!pos] <> '(' && str.[!pos] <> ')' && str.[!pos] <> '\t' do incr pos done;
+      Atom (String.sub str st (!pos - st))
+    end in
+  rd ()
+
+let name_of (a : string) : n list = List.init (String.length a) (fun i -> n_of_int (Char.code a.[i]))
+let str_of_name (l : n list) : string = String.concat "" (List.map (fun b -> String.make 1 (Char.chr (int_of_n b))) l)
+let atom = function Atom a -> a | Lst [] -> "" | _ -> failwith "atom expected"
+let n_of_string (s : string) : n =
+  (* decimal, possibly beyond OCaml's int range (64-bit masks) *)
+  let r = ref N0 in
+  String.iter (fun c -> r := N.add (N.mul !r (n_of_int 10)) (n_of_int (Char.code c - 48))) s; !r
+
+exception Unknown_op of string
+
+let rec build (rules : (string * nat) list) (s : sx) : expr =
+  let rule nm = try List.assoc nm rules with Not_found -> failwith ("unknown rule " ^ nm) in
+  match s with
+  | Lst (Atom op :: args) ->
+      let a i = List.nth args i in
+      let b i = build rules (a i) in
+      (match op with
+       | "chr" | "str" -> EStr (unhex (atom (a 0)))
+       | "any" -> EAny | "eps" -> EEps | "nop" -> ENop | "eoi" -> EEoi | "eol" -> EEol | "cut" -> ECut | "accept" -> EAccept
+       | "cls" ->
+           let k = (match atom (a 0) with "any" -> CkAny | "all" -> CkAll | _ -> CkNone) in
+           let e = (match atom (a 1) with "c" -> property_enum_ctype | "p" -> property_enum_ptype | _ -> property_enum_gctype) in
+           EClass (k, e, n_of_string (atom (a 2)))
+       | "rng" -> ERange (n_of_string (atom (a 0)), n_of_string (atom (a 1)))
+       | "ref" -> ERef (rule (atom (a 0)))
+       | "prec" -> EPrec (rule (atom (a 0)), n_of_string (atom (a 1)))
+       | "seq" -> ESeq (b 0, b 1) | "alt" -> EAlt (b 0, b 1) | "list" -> EList (b 0, b 1)
+       | "star" -> EStar (b 0) | "plus" -> EPlus (b 0) | "opt" -> EOpt (b 0) | "not" -> ENot (b 0) | "and" -> EAnd (b 0)
+       | "lexeme" -> ELexeme (b 0) | "noskip" -> ENoskip (b 0) | "skip" -> ESkip (b 0) | "caseless" -> ECaseless (b 0) | "cased" -> ECased (b 0)
+       | "cutb" -> ECutBefore (b 0) | "cuta" -> ECutAfter (b 0)
+       | "rep" -> ERep (n_of_string (atom (a 0)), n_of_string (atom (a 1)), b 2)
+       | "act" -> EAct (n_of_string (atom (a 0)), b 1)
+       | "cap" -> ECap (n_of_string (atom (a 0)), b 1)
+       | "sym" -> ESym (name_of (atom (a 0)), b 1)
+       | "block" -> EBlock (b 0) | "local" -> ELocal (b 0)
+       | "localto" -> ELocalTo (name_of (atom (a 0)), b 1)
+       | "on" -> ECond (true, name_of (atom (a 0)), b 1) | "off" -> ECond (false, name_of (atom (a 0)), b 1)
+       | "when" -> EWhen (true, name_of (atom (a 0))) | "unless" -> EWhen (false, name_of (atom (a 0)))
+       | "exists" -> EExists (true, name_of (atom (a 0))) | "missing" -> EExists (false, name_of (atom (a 0)))
+       | "match" -> EMatchSym (SkTail, name_of (atom (a 0)), N0)
+       | "match_all" -> EMatchSym (SkAll, name_of (atom (a 0)), N0)
+       | "match_any" -> EMatchSym (SkAny, name_of (atom (a 0)), N0)
+       | "match_front" -> EMatchSym (SkHead, name_of (atom (a 0)), n_of_string (atom (a 1)))
+       | "match_back" -> EMatchSym (SkTail, name_of (atom (a 0)), n_of_string (atom (a 1)))
+       | "expect" ->
+           let lab = name_of (atom (a 1)) in
+           if List.length args <= 2 then EExpect (b 0, lab)
+           else (match a 2 with
+                 | Lst [Atom "ref"; Atom r] -> EExpectRule (b 0, lab, rule r)
+                 | r -> EExpectExpr (b 0, lab, build rules r))
+       | "raise" ->
+           let lab = name_of (atom (a 0)) in
+           if List.length args <= 1 then ERaise lab
+           else (match a 1 with
+                 | Lst [Atom "ref"; Atom r] -> ERaiseRule (lab, rule r)
+                 | r -> ERaiseExpr (lab, build rules r))
+       | "recwith" ->
+           (match a 0 with
+            | Lst [Atom "ref"; Atom r] -> ERecRule (rule r, b 1)
+            | r -> ERecExpr (build rules r, b 1))
+       | "report" -> EReport ((n_of_string (atom (a 0)), n_of_string (atom (a 1))), b 2)
+       | "respond" -> ERespond (n_of_string (atom (a 0)), b 1)
+       | "pred" -> EPred (n_of_string (atom (a 0)), n_of_string (atom (a 1)))
+       | _ -> raise (Unknown_op op))
+  | _ -> failwith "bad expression"
+
+let low32 (x : n) : int = int_of_n (N.coq_land x (n_of_int 0xffffffff))
+
+let print_program (p : program) =
+  List.iter (fun i -> Printf.printf "%d.%d.%d.%d " (int_of_n i.n_op) (int_of_n i.n_imm8) (int_of_n i.n_imm16) (int_of_z i.n_off)) p.p_code;
+  Printf.printf "| data=%s uni=" (hex p.p_data);
+  List.iter (fun u -> Printf.printf "%Lu," (i64_of_n u)) p.p_uniforms;
+  print_string " rs=";
+  List.iter (fun rs ->
+      for w = 0 to 3 do Printf.printf "%08x" (low32 (N.shiftr rs.ascii (n_of_int (32 * w)))) done;
+      print_string ":";
+      List.iter (fun (a, b) -> Printf.printf "%d-%d," (int_of_n a) (int_of_n b)) rs.ivs;
+      print_string ";") p.p_runesets;
+  Printf.printf " nh=%d np=%d na=%d nc=%d" (List.length p.p_handlers) (List.length p.p_predicates) (List.length p.p_actions) (List.length p.p_captures)
+
+let callbacks : callbacks =
+  { cb_pred = (fun (_, k) size -> (int_of_n size + int_of_n k) mod 2 = 0);
+    cb_handler = (fun (_, resp) _ _ _ incoming -> if int_of_n resp = 9 then incoming else resp) }
+
+let err_name (w : n) : string =
+  match int_of_n w with
+  | 1 -> "character_range_is_reversed" | 2 -> "nested-space" | 3 -> "table-index" | 4 -> "limit"
+  | 5 -> "invalid_string_or_bracket_expression" | 6 -> "invalid_character_class" | k -> "err" ^ string_of_int k
+
+let print_event (e : event) =
+  match e with
+  | EvAction (id, d) -> Printf.printf "A%d@%d " (int_of_n id) (int_of_n d)
+  | EvCapture (id, d, st, _, text) -> Printf.printf "C%d@%d(%d,%s) " (int_of_n id) (int_of_n d) (int_of_n st) (hex text)
+  | EvPred ((id, k), sz) -> Printf.printf "P%d.%d@%d " (int_of_n id) (int_of_n k) (int_of_n sz)
+  | EvHandler ((id, r), lab, idx, sz, inc) -> Printf.printf "H%d.%d(%s,%d,%d,%d) " (int_of_n id) (int_of_n r) (hex lab) (int_of_n idx) (int_of_n sz) (int_of_n inc)
+  | EvDrain _ | EvPoll _ -> ()
+
+let budget = ref 200000
+let trace = ref false
+
+let run_input (caseno : int) (tag : string) (inhex : string) (prog : sinstr list) (s0 : mstate) =
+  let t = Lazy.force ucd in
+  let steps = ref 0 and h = ref 0 in
+  let finish res (s : mstate) fix_mr =
+    let mr = if fix_mr then N.max s.mr s.sr else s.mr in
+    Printf.printf "case %d run %s %s res=%s sr=%Lu mr=%Lu steps=%d trace=%x log=" caseno tag inhex res (i64_of_n s.sr) (i64_of_n mr) !steps !h;
+    List.iter print_event (List.rev s.log);
+    print_string "conds=";
+    List.iter (fun c -> Printf.printf "%s," c) (List.sort compare (List.map str_of_name s.conds));
+    print_string " syms=";
+    List.iter (fun x -> Printf.printf "%s," x)
+      (List.sort compare (List.map (fun (k, vs) -> str_of_name k ^ "=" ^ String.concat "" (List.map (fun v -> hex v ^ "/") vs)) s.syms));
+    print_newline () in
+  let rec go (s : mstate) =
+    let fetched = (s.fmode = N0) && (match fetch prog s.pc with Some _ -> true | None -> false) in
+    if fetched && !steps >= !budget then finish "diverged" s true
+    else begin
+      if fetched then begin
+        incr steps;
+        let vals = [low32 (match s.pc with Z0 -> N0 | Zpos p -> Npos p | Zneg _ -> N0); low32 s.sr; low32 s.mr; low32 s.rc; low32 s.cd; low32 s.cic; List.length s.frames; List.length s.resp] in
+        List.iter (fun v -> h := ((!h * 33) lxor v) land 0x3fffffffffffff) vals;
+        if !trace then Printf.printf "  step %d pc=%d sr=%Lu mr=%Lu rc=%d cd=%d ci=%d fr=%d resp=%d\n" !steps (int_of_z s.pc) (i64_of_n s.sr) (i64_of_n s.mr) (int_of_n s.rc) (int_of_n s.cd) (int_of_n s.cic) (List.length s.frames) (List.length s.resp)
+      end;
+      match step t callbacks prog s with
+      | Running s' -> go s'
+      | Done (ok, s') -> finish (if ok then "1" else "0") s' false
+      | Stuck (why, s') ->
+          (match why with
+           | BadStack -> finish "throw:empty_or_invalid_parser_stack_error" s' true
+           | BadVariant -> finish "throw:std:St18bad_variant_access" s' true
+           | BadOpcode -> finish "throw:invalid_opcode" s' true
+           | OutOfRange -> finish "throw:std:St12out_of_range" s' true
+           | Terminate -> Printf.printf "case %d run %s %s res=terminate steps=%d\n" caseno tag inhex !steps
+           | BadIndex -> finish "stuck:table-index" s' false)
+    end in
+  go s0
+
+let do_grammar (caseno : int) (line : string) =
+  match parse_sx line with
+  | Lst (Atom "grammar" :: items) ->
+      let names = List.filter_map (function Lst (Atom ("rule" | "rulecopy") :: Atom nm :: _) -> Some nm | _ -> None) items in
+      let names = List.sort_uniq compare names in
+      let rules = List.mapi (fun i nm -> (nm, nat_of_int i)) names in
+      (try
+        let space = ref None and defs = ref [] and start = ref O in
+        List.iter (function
+            | Lst [Atom "space"; Atom "default"] -> ()
+            | Lst [Atom "space"; e] -> space := Some (build rules e)
+            | Lst [Atom "rule"; Atom nm; e] -> defs := (List.assoc nm rules, RExpr (build rules e)) :: !defs
+            | Lst [Atom "rulecopy"; Atom nm; Atom src] -> defs := (List.assoc nm rules, RCopy (List.assoc src rules)) :: !defs
+            | Lst [Atom "start"; Atom nm] -> start := List.assoc nm rules
+            | _ -> ()) items;
+        let g = { g_nrules = nat_of_int (List.length names); g_defs = List.rev !defs; g_start = !start; g_space = !space } in
+        match compile (Lazy.force ucd) g with
+        | Err w -> Printf.printf "case %d error %s\n" caseno (err_name w)
+        | OK code ->
+            Printf.printf "case %d prog " caseno; print_program (lower code); print_newline ();
+            List.iter (function
+                | Lst (Atom "input" :: rest) ->
+                    let inhex = (match rest with [Atom h] -> h | _ -> "-") in
+                    run_input caseno "sv" inhex code (init_state (unhex inhex) [] false [] [])
+                | Lst (Atom "chunks" :: pieces) ->
+                    let hs = List.map atom pieces in
+                    let all = if hs = [] then "-" else String.concat "|" hs in
+                    run_input caseno "ch" all code (init_state [] (List.map unhex hs) false [] [])
+                | _ -> ()) items
+      with Unknown_op op -> Printf.printf "case %d error std:unknown op %s\n" caseno op)
+  | _ -> Printf.printf "case %d error bad-line\n" caseno
+
+let caseno = ref 0
 let () =
+  Array.iter (fun a -> if a = "--trace" then trace := true else if String.length a > 9 && String.sub a 0 9 = "--budget=" then budget := int_of_string (String.sub a 9 (String.length a - 9))) Sys.argv;
   try
     while true do
       let line = input_line stdin in
-      if String.length line > 0 && line.[0] <> '#' then begin
+      if String.length line > 8 && String.sub line 0 8 = "(grammar" then (incr caseno; do_grammar !caseno line; flush stdout)
+      else if String.length line > 0 && line.[0] <> '#' then begin
         let toks = List.filter (fun s -> s <> "") (String.split_on_char ' ' line) in
         match toks with
         | ["dec"; h] -> let (c, r) = decode_rune (unhex h) in Printf.printf "%d %d\n" (int_of_nat c) (int_of_n r)
